@@ -34,6 +34,7 @@ type Check struct {
 	Pass   Polarity
 	// ArgOK optionally restricts matching call sites (e.g. constant arguments); sites failing it are reported.
 	ArgOK   func(call ssa.CallInstruction) string // "" = ok, otherwise complaint
+	Filter  func(call ssa.CallInstruction) bool   // optional: only these call sites belong to the check
 	MinSite int
 	// comparison-based
 	Cmp *CmpPat
@@ -416,6 +417,9 @@ func (g *gateRun) findPassEdges(c Check, into EdgeSet) (sites int, tested int, c
 	if c.Call != nil {
 		calls := Calls(fn, *c.Call)
 		for _, ci := range calls {
+			if c.Filter != nil && !c.Filter(ci) {
+				continue
+			}
 			sites++
 			if c.ArgOK != nil {
 				if msg := c.ArgOK(ci); msg != "" {
